@@ -774,18 +774,24 @@ func (repo *Repository) MarkHeaderInvalid(ctx context.Context, hash bitcoin.Hash
 	repo.Lock()
 	defer repo.Unlock()
 
+	alreadyMarked := false
 	for _, invalidHash := range repo.invalidHashes {
 		if invalidHash.Equal(&hash) {
-			return nil // already marked
+			alreadyMarked = true
+			break
 		}
 	}
 
-	repo.invalidHashes = append(repo.invalidHashes, hash)
-	if err := saveInvalidHashes(ctx, repo.store, repo.invalidHashes); err != nil {
-		return errors.Wrap(err, "save invalid hashes")
+	if !alreadyMarked {
+		repo.invalidHashes = append(repo.invalidHashes, hash)
+		if err := saveInvalidHashes(ctx, repo.store, repo.invalidHashes); err != nil {
+			return errors.Wrap(err, "save invalid hashes")
+		}
 	}
 
-	// Check if hash was previously accepted
+	// Check if hash was previously accepted. A hash that is already in the list can still be in a
+	// branch: the configured invalid hashes are added to the list on load without looking at the
+	// headers that were accepted before.
 	branch, height := repo.branches.Find(hash)
 	if branch == nil {
 		return nil // not found
